@@ -212,12 +212,27 @@ func c02Func(p *ana.Prog, r *ana.Result, sp c02Spec) {
 		idx string
 	}
 	var reads []read
+	// the argument and its re-slicings (read-only views of the caller's array)
+	views := map[ssa.Value]bool{param: true}
+	for changed := true; changed; {
+		changed = false
+		ana.Instrs(fn, func(in ssa.Instruction) {
+			if sl, ok := in.(*ssa.Slice); ok && views[sl.X] && !views[sl] {
+				views[sl] = true
+				changed = true
+			}
+		})
+	}
 	ana.Instrs(fn, func(in ssa.Instruction) {
 		ia, ok := in.(*ssa.IndexAddr)
-		if !ok || ia.X != param {
+		if !ok || !views[ia.X] {
 			return
 		}
-		reads = append(reads, read{in, idxCanon(ia.Index, param)})
+		if ia.X == param {
+			reads = append(reads, read{in, idxCanon(ia.Index, param)})
+		} else {
+			reads = append(reads, read{in, "view"})
+		}
 		for _, ref := range ana.Referrers(ia) {
 			if st, ok := ref.(*ssa.Store); ok && st.Addr == ssa.Value(ia) {
 				r.Violate("C02.effect", fname, "element-store", posOf(p, st), "the function writes an element of the caller's slice (it may only reorder it by sorting)")
@@ -231,18 +246,20 @@ func c02Func(p *ana.Prog, r *ana.Result, sp c02Spec) {
 			}
 		}
 	})
-	// other uses of the slice (passing it on, re-slicing) are not admitted
-	for _, ref := range ana.Referrers(param) {
-		switch x := ref.(type) {
-		case *ssa.IndexAddr, *ssa.DebugRef:
-		case *ssa.Call:
-			n := ana.CalleeName(&x.Call)
-			if x == sortCall || isSort[x] || n == "builtin.len" {
-				continue
+	// other uses of the slice (passing it on) are not admitted
+	for v := range views {
+		for _, ref := range ana.Referrers(v) {
+			switch x := ref.(type) {
+			case *ssa.IndexAddr, *ssa.DebugRef, *ssa.Slice:
+			case *ssa.Call:
+				n := ana.CalleeName(&x.Call)
+				if (v == param && (x == sortCall || isSort[x])) || n == "builtin.len" || n == "builtin.cap" {
+					continue
+				}
+				r.Violate("C02.effect", fname, "slice-escapes:"+ana.Short(n), posOf(p, x), "the slice is handed to "+ana.Short(n)+" (effects on the caller's slice are not bounded to reordering)")
+			default:
+				r.Violate("C02.effect", fname, "slice-use", posOf(p, ref), "UNDECIDED: unrecognised use of the parameter slice")
 			}
-			r.Violate("C02.effect", fname, "slice-escapes:"+ana.Short(n), posOf(p, x), "the slice is handed to "+ana.Short(n)+" (effects on the caller's slice are not bounded to reordering)")
-		default:
-			r.Violate("C02.effect", fname, "slice-use", posOf(p, ref), "UNDECIDED: unrecognised use of the parameter slice")
 		}
 	}
 	if byTable {
